@@ -10,8 +10,8 @@
 From Coq Require Import ZArith List Bool.
 Import ListNotations.
 From Mds Require Import Common.FnRt.
-From Mds Require Gen.FnSlice Gen.FnSlicesStd.
-From Mds Require Import Slice.SliceUtilMoreModel.
+From Mds Require Gen.FnSlice Gen.FnSlicesStd Gen.FnSliceIter.
+From Mds Require Import Slice.SliceUtilMoreModel Slice.SliceUtilExtraModel.
 From Mds Require Import GenTie.SliceTieBase GenTie.SliceTieMore.
 Local Open Scope Z_scope.
 
@@ -35,4 +35,23 @@ Example C17_reverse_source_ex :
   FnSlice.Reverse [1; 2; 3; 4; 5] (fun s => FnSlicesStd.Reverse s 6) = Ok [5; 4; 3; 2; 1]
   /\ FnSlice.Reverse [1; 2; 3; 4] (fun s => FnSlicesStd.Reverse s 5) = Ok [4; 3; 2; 1]
   /\ reverse_impl [1; 2; 3; 4] = SliceUtilModel.Ok [4; 3; 2; 1].
+Proof. vm_compute. repeat split. Qed.
+
+(* Select(vs, f) run against an arbitrary consumer.  [FnSliceIter.Select] is generated from the
+   closure Select returns, as one function of (vs, f) and the consumer: yield threads a state of
+   any type S and answers what Go's yield returns (false = the range loop was left).  For every
+   consumer [yieldT], every test f, every list, start state and fuel above the length, the
+   consumer's final state is the one the model's select_loop reaches (which values it was handed,
+   in which order, and where it stopped the iteration). *)
+Theorem C17_select_is_source :
+  forall (T S : Type) (yieldT : S -> T -> S * bool) (f : T -> bool) (vs : list T) (s : S) (fuel : nat),
+    (fuel > length vs)%nat ->
+    FnSliceIter.Select vs f (gyield yieldT) s fuel = Ok (fst (select_loop yieldT f vs s 0)).
+Proof. exact (@select_is_source). Qed.
+Print Assumptions C17_select_is_source.
+
+(* the consumer `for x := range Select(vs, even) { out = append(out, x); if len(out) == 2 { break } }` *)
+Example C17_select_source_ex :
+  FnSliceIter.Select [1; 2; 3; 4; 5; 6] Z.even (gyield (take_consumer 2)) ([], 0) 7%nat = Ok ([2; 4], 2)
+  /\ FnSliceIter.Select [1; 2; 3; 4; 5; 6] Z.even (gyield (take_consumer 0)) ([], 0) 7%nat = Ok ([2; 4; 6], 3).
 Proof. vm_compute. repeat split. Qed.
